@@ -324,4 +324,104 @@ theorem anc_to_canc {g : Guard} {U : List Block} {K : List Nat} {T : Nat} (inv :
     have hget : cacheGet g.cache b.parent = some pp := by rw [← hpph]; exact cacheGet_eq inv.cacheFun hppC
     exact CAnc.step hget (ih ha pp hppC hpph)
 
+/-! ### the two-cursor walk of getBlocksByBranch -/
+
+theorem anc_height {U : List Block} (hfun : HashFun U) (tree : TreeOK U) {p : Nat} {a : Block} (h : Anc U p a) :
+    ∀ x ∈ U, x.hash = p → a.height ≤ x.height ∧ (a.height = x.height → a = x) := by
+  induction h with
+  | self ha =>
+    intro x hx he
+    have := hfun x hx _ ha he
+    rw [this]; exact ⟨Nat.le_refl _, fun _ => rfl⟩
+  | @step b a hb hanc ih =>
+    intro x hx he
+    have hxb := hfun x hx b hb he
+    rw [hxb]
+    obtain ⟨pp, hpp, hph⟩ := anc_head hanc
+    have h1 := ih pp hpp hph
+    have h2 := tree.height b hb pp hpp hph
+    exact ⟨by omega, fun heq => by omega⟩
+
+/-- a proper descendant of `c` has a parent in `U` that still descends from `c` -/
+theorem anc_parent {U : List Block} (hfun : HashFun U) {x c : Block} (hx : x ∈ U) (h : Anc U x.hash c) (hne : x ≠ c) :
+    ∃ p ∈ U, p.hash = x.parent ∧ Anc U x.parent c := by
+  generalize hp : x.hash = ph at h
+  cases h with
+  | self hc => exact absurd (hfun x hx c hc hp) hne
+  | @step b _ hb hanc =>
+    have := hfun x hx b hb hp
+    rw [← this] at hanc
+    obtain ⟨pp, hpp, hph⟩ := anc_head hanc
+    exact ⟨pp, hpp, hph, hanc⟩
+
+/-- `getBlocksByBranch` cannot fail (ErrNotFoundBlockCache / ErrDifferentGenesis / hang) when the two
+    leaves are saved blocks with a common ancestor that is still cached: every block on the two paths
+    is at least as young as that ancestor, hence cached.  (In the engine the common ancestor of two
+    heads is the stable block or younger.) -/
+theorem branchLoop_total {g : Guard} {U : List Block} {K : List Nat} {T : Nat} (inv : Inv g U K T) (tree : TreeOK U)
+    {c : Block} (hc : c ∈ g.cache) :
+    ∀ (fuel : Nat) (x1 x2 : Block) (a1 a2 : List Block), x1 ∈ U → x2 ∈ U → Anc U x1.hash c → Anc U x2.hash c →
+      x1.height + x2.height < fuel →
+      ∃ r1 r2, branchLoop g.cache fuel x1.hash x2.hash x1.height x2.height a1 a2 = .ok r1 r2 := by
+  have hcU := ((inv.cacheIff c).1 hc)
+  have hcached : ∀ x ∈ U, Anc U x.hash c → cacheGet g.cache x.hash = some x := by
+    intro x hx hanc
+    have ht := anc_time inv.hfun tree hanc x hx rfl
+    have hxc : x ∈ g.cache := (inv.cacheIff x).2 ⟨hx, by
+      have : c.time / 60 ≤ x.time / 60 := Nat.div_le_div_right ht
+      omega⟩
+    exact cacheGet_eq inv.cacheFun hxc
+  intro fuel
+  induction fuel with
+  | zero => intro x1 x2 _ _ _ _ _ _ hf; exact absurd hf (Nat.not_lt_zero _)
+  | succ fuel ih =>
+    intro x1 x2 a1 a2 hx1 hx2 han1 han2 hf
+    have hh1 := anc_height inv.hfun tree han1 x1 hx1 rfl
+    have hh2 := anc_height inv.hfun tree han2 x2 hx2 rfl
+    unfold branchLoop
+    by_cases hgt : x1.height > x2.height
+    · rw [if_pos hgt, hcached x1 hx1 han1]
+      simp only
+      have hne : x1 ≠ c := by intro he; rw [he] at hgt; omega
+      obtain ⟨p, hp, hph, hpa⟩ := anc_parent inv.hfun hx1 han1 hne
+      have hht := tree.height x1 hx1 p hp hph
+      have e1 : x1.height - 1 = p.height := by omega
+      rw [← hph, e1]
+      exact ih p x2 _ _ hp hx2 (by rw [hph]; exact hpa) han2 (by omega)
+    · rw [if_neg hgt]
+      by_cases hlt : x1.height < x2.height
+      · rw [if_pos hlt, hcached x2 hx2 han2]
+        simp only
+        have hne : x2 ≠ c := by intro he; rw [he] at hlt; omega
+        obtain ⟨p, hp, hph, hpa⟩ := anc_parent inv.hfun hx2 han2 hne
+        have hht := tree.height x2 hx2 p hp hph
+        have e1 : x2.height - 1 = p.height := by omega
+        rw [← hph, e1]
+        exact ih x1 p _ _ hx1 hp han1 (by rw [hph]; exact hpa) (by omega)
+      · rw [if_neg hlt]
+        have heq : x1.height = x2.height := by omega
+        by_cases hhash : x1.hash = x2.hash
+        · rw [if_pos hhash]; exact ⟨_, _, rfl⟩
+        · rw [if_neg hhash]
+          have hne1 : x1 ≠ c := by
+            intro he
+            have : c = x2 := hh2.2 (by rw [← he]; exact heq)
+            exact hhash (by rw [he, this])
+          have hne2 : x2 ≠ c := by
+            intro he
+            have : c = x1 := hh1.2 (by rw [← he]; exact heq.symm)
+            exact hhash (by rw [he, this])
+          obtain ⟨p1, hp1, hph1, hpa1⟩ := anc_parent inv.hfun hx1 han1 hne1
+          obtain ⟨p2, hp2, hph2, hpa2⟩ := anc_parent inv.hfun hx2 han2 hne2
+          have hht1 := tree.height x1 hx1 p1 hp1 hph1
+          have hht2 := tree.height x2 hx2 p2 hp2 hph2
+          rw [if_neg (by omega), hcached x1 hx1 han1]
+          simp only
+          rw [hcached x2 hx2 han2]
+          simp only
+          have e1 : x1.height - 1 = p1.height := by omega
+          have e2 : x2.height - 1 = p2.height := by omega
+          rw [← hph1, ← hph2, e1, e2]
+          exact ih p1 p2 _ _ hp1 hp2 (by rw [hph1]; exact hpa1) (by rw [hph2]; exact hpa2) (by omega)
+
 end LemoProofs.TxGuardLemmas
